@@ -19,14 +19,19 @@ SqrtOK(X, ex, R, er, p, inx) ==
   IF exact THEN ~inx /\ NumDigits(R) <= p
   ELSE LET s == ToP(R, er, p)
            Rp == s[1]  ep == s[2]
-           lo == Sub(Add(Rp, Rp), One)                 \* 2R-1
-           hi == Add(Add(Rp, Rp), One)                 \* 2R+1
-           X4 == MulSmall(X, 4)
-           cl == CmpS(Sq(lo), 2 * ep, X4, ex)          \* (2R-1)^2 u^2 ? 4x
-           ch == CmpS(X4, ex, Sq(hi), 2 * ep)          \* 4x ? (2R+1)^2 u^2
+           \* everything scaled by 20: r = 20R, half a unit above = 10; half a unit below = 10, or 1 when R is a power
+           \* of ten (below 10^(p-1) the representable values are ten times denser)
+           pow10 == Rp = Pow10(p - 1)
+           R20 == MulSmall(Rp, 20)
+           lo == Sub(R20, IF pow10 THEN One ELSE <<10>>)
+           hi == Add(R20, <<10>>)
+           X400 == MulSmall(X, 400)
+           cl == CmpS(Sq(lo), 2 * ep, X400, ex)         \* (r - half below)^2 ? x
+           ch == CmpS(X400, ex, Sq(hi), 2 * ep)         \* x ? (r + half above)^2
        IN /\ inx
           /\ NumDigits(Rp) = p
-          /\ (cl < 0 \/ (cl = 0 /\ ~IsOdd(Rp)))
+          \* a tie goes to the even neighbour; at a power of ten the neighbour below is 99..9 (odd), so the tie goes up
+          /\ (cl < 0 \/ (cl = 0 /\ (pow10 \/ ~IsOdd(Rp))))
           /\ (ch < 0 \/ (ch = 0 /\ ~IsOdd(Rp)))
 
 \* r is within one unit in the last place (of a p-digit result) of cbrt(|x|); exact on perfect cubes
@@ -34,9 +39,12 @@ CbrtOK(X, ex, R, er, p, inx) ==
   LET exact == CmpS(Cube(R), 3 * er, X, ex) = 0
       s == ToP(R, er, p)
       Rp == s[1]  ep == s[2]
-      dn == Sub(Rp, One)  up == Add(Rp, One)
+      pow10 == Rp = Pow10(p - 1)                      \* below a power of ten one unit is ten times smaller
+      dn == IF pow10 THEN Sub(MulSmall(Rp, 10), One) ELSE Sub(Rp, One)
+      edn == IF pow10 THEN ep - 1 ELSE ep
+      up == Add(Rp, One)
   IN IF exact THEN ~inx /\ NumDigits(R) <= p
      ELSE /\ NumDigits(Rp) = p
-          /\ CmpS(Cube(dn), 3 * ep, X, ex) < 0           \* (R-1)^3 < x : a neighbour is not the exact root
+          /\ CmpS(Cube(dn), 3 * edn, X, ex) < 0          \* (R-1)^3 < x : a neighbour is not the exact root
           /\ CmpS(X, ex, Cube(up), 3 * ep) < 0
 =============================================================================
